@@ -846,6 +846,7 @@ func (r *c14Run) teardown() {
 
 var c14SkipMtx sync.Mutex
 var c14Skips = map[string]int{}
+var c14SkipEx []string
 
 func c14RunSched(t *testing.T, w *c14Writer, id int, tmp string, s c14Sched) (skipped int) {
 	r := newC14Run(t, id, tmp)
@@ -855,6 +856,10 @@ func c14RunSched(t *testing.T, w *c14Writer, id int, tmp string, s c14Sched) (sk
 			skipped = len(s.Steps) - k
 			c14SkipMtx.Lock()
 			c14Skips[st.Op+"@"+r.pc()]++
+			if len(c14SkipEx) < 12 && st.Op != "FetcherAllocate" {
+				js, _ := json.Marshal(s)
+				c14SkipEx = append(c14SkipEx, fmt.Sprintf("step %d of %s", k, js))
+			}
 			c14SkipMtx.Unlock()
 			break
 		}
@@ -1073,13 +1078,25 @@ func TestVerifC14(t *testing.T) {
 	w.f.Close()
 
 	wf := newC14Writer(outDir + "/f.ndjson")
+	fjobs := make(chan job)
+	for k := 0; k < par*2; k++ {
+		wg.Add(1)
+		go func() {
+			defer wg.Done()
+			for j := range fjobs {
+				c14RunFree(t, wf, j.id, tmp, rand.New(rand.NewSource(j.seed)))
+			}
+		}()
+	}
 	for k := 0; k < in.FreeF; k++ {
 		id++
-		c14RunFree(t, wf, id, tmp, rand.New(rand.NewSource(seed*7919+int64(k))))
+		fjobs <- job{id: id, seed: seed*7919 + int64(k)}
 	}
+	close(fjobs)
+	wg.Wait()
 	wf.f.Close()
 
-	sum := map[string]interface{}{"d_events": w.n, "f_events": wf.n, "skipped_runs": skippedRuns, "skipped_steps": skippedSteps, "skips": c14Skips,
+	sum := map[string]interface{}{"d_events": w.n, "f_events": wf.n, "skipped_runs": skippedRuns, "skipped_steps": skippedSteps, "skips": c14Skips, "skip_examples": c14SkipEx,
 		"chunk_timeout_ms": int(chunkTimeout / time.Millisecond)}
 	b, _ := json.Marshal(sum)
 	if err := os.WriteFile(outDir+"/summary.json", b, 0o644); err != nil {
@@ -1088,5 +1105,316 @@ func TestVerifC14(t *testing.T) {
 	t.Logf("C14 harness: %s", b)
 }
 
-// placeholder until mode F is written
-func c14RunFree(t *testing.T, w *c14Writer, id int, tmp string, rng *rand.Rand) {}
+// ---------------------------------------------------------------- mode F: free running fetchers
+
+func c14Gid() int {
+	var buf [64]byte
+	n := runtime.Stack(buf[:], false)
+	// "goroutine 123 [running]:..."
+	f := strings.Fields(string(buf[:n]))
+	if len(f) < 2 {
+		return -1
+	}
+	id, _ := strconv.Atoi(f[1])
+	return id
+}
+
+type c14FreeRun struct {
+	id    int
+	mtx   sync.Mutex
+	rows  []map[string]interface{}
+	sy    *syncer
+	rng   *rand.Rand // guarded by mtx
+	bad   int
+	refs  int
+	inst  int
+	abort bool
+	gids  map[int]int
+	wg    sync.WaitGroup
+}
+
+func (r *c14FreeRun) emit(ev string, kv map[string]interface{}) {
+	row := map[string]interface{}{"ev": ev, "run": r.id, "mode": "F"}
+	for k, v := range kv {
+		row[k] = v
+	}
+	r.rows = append(r.rows, row)
+}
+
+// small stable goroutine names (ids are assigned by first appearance)
+func (r *c14FreeRun) gname() string {
+	g := c14Gid()
+	if _, ok := r.gids[g]; !ok {
+		r.gids[g] = len(r.gids) + 1
+	}
+	return "g" + strconv.Itoa(r.gids[g])
+}
+
+// the syncer's logger as an observation point inside the fetcher goroutines
+type c14Logger struct{ r *c14FreeRun }
+
+func (l *c14Logger) Debug(msg string, kv ...interface{}) {}
+func (l *c14Logger) Error(msg string, kv ...interface{}) {}
+func (l *c14Logger) With(kv ...interface{}) log.Logger  { return l }
+func (l *c14Logger) Info(msg string, kv ...interface{}) {
+	if msg != "Fetching snapshot chunk" {
+		return
+	}
+	idx := -1
+	for k := 0; k+1 < len(kv); k += 2 {
+		if kv[k] == "chunk" {
+			if u, ok := kv[k+1].(uint32); ok {
+				idx = int(u)
+			}
+		}
+	}
+	l.r.mtx.Lock()
+	l.r.emit("Fetch", map[string]interface{}{"g": l.r.gname(), "i": idx})
+	l.r.mtx.Unlock()
+}
+
+func (r *c14FreeRun) curSnap() c14Snap {
+	r.sy.mtx.RLock()
+	q := r.sy.chunks
+	r.sy.mtx.RUnlock()
+	if q == nil {
+		return c14NoSnap
+	}
+	q.Lock()
+	defer q.Unlock()
+	return c14AbsSnap(q.snapshot)
+}
+
+// deliver one chunk instance: intent logged before, result after
+func (r *c14FreeRun) deliver(p string, h, f, i int) {
+	r.mtx.Lock()
+	r.inst++
+	x := r.inst
+	b := fmt.Sprintf("i%d#%d", i, x)
+	r.emit("ChunkSend", map[string]interface{}{"x": x, "p": p, "i": i, "b": b, "h": h, "f": f})
+	r.mtx.Unlock()
+	added, err := r.sy.AddChunk(&chunk{Height: uint64(h), Format: uint32(f), Index: uint32(i), Chunk: []byte(b), Sender: p2p.ID(p)})
+	res := "ignored"
+	switch {
+	case err != nil && strings.Contains(err.Error(), "no state sync in progress"):
+		res = "nosync"
+	case err != nil:
+		res = "err"
+	case added:
+		res = "added"
+	}
+	r.mtx.Lock()
+	r.emit("ChunkAdded", map[string]interface{}{"x": x, "res": res})
+	r.mtx.Unlock()
+}
+
+func c14RunFree(t *testing.T, w *c14Writer, id int, tmp string, rng *rand.Rand) {
+	r := &c14FreeRun{id: id, rng: rng, gids: map[int]int{}}
+	r.rows = append(r.rows, map[string]interface{}{"ev": "Reset", "run": id, "mode": "F", "sched": "free"})
+	r.bad = rng.Intn(5)
+	r.refs = 1
+	pick := func(xs []string) string { return xs[r.rng.Intn(len(xs))] }
+
+	auto := func(c *c14Call) c14Reply {
+		r.mtx.Lock()
+		defer r.mtx.Unlock()
+		cur := c14NoSnap
+		if q := r.sy.chunks; q != nil { // the applier itself is the caller: s.chunks is stable here
+			cur = c14AbsSnap(q.snapshot)
+		}
+		useBad := func() bool {
+			if !r.abort && r.bad > 0 && r.rng.Intn(3) == 0 {
+				r.bad--
+				return true
+			}
+			return false
+		}
+		switch c.kind {
+		case "apphash", "state", "commit":
+			ans := "ok"
+			if r.abort {
+				ans = "nowit"
+			} else if useBad() {
+				ans = "fail"
+			}
+			r.emit("Provider", map[string]interface{}{"which": c.kind, "h": int(c.h), "ans": ans, "s": cur})
+			switch ans {
+			case "ok":
+				return c14Reply{hash: c14TAppHash(c.h), state: c14TState(c.h), commit: c14TCommit(c.h)}
+			case "nowit":
+				return c14Reply{fail: light.ErrNoWitnesses}
+			}
+			return c14Reply{fail: c14ErrProvider}
+		case "offer":
+			v := "accept"
+			if r.abort {
+				v = "abort"
+			} else if useBad() {
+				v = pick([]string{"reject", "reject_format", "reject_sender", "reject"})
+			}
+			off := c14NoSnap
+			if x := c.offer.Snapshot; x != nil {
+				off = c14Snap{H: int(x.Height), F: int(x.Format), N: int(x.Chunks), Hash: c14Str(x.Hash), Meta: c14Str(x.Metadata)}
+			}
+			r.emit("Offer", map[string]interface{}{"s": off, "apphash": c14Str(c.offer.AppHash), "v": v})
+			return c14Reply{offer: c14OfferResults[v]}
+		case "apply":
+			v := "accept"
+			var rf []int
+			var rs []string
+			if r.abort {
+				v = "abort"
+			} else if useBad() {
+				v = pick([]string{"retry", "retry_snapshot", "accept", "reject_snapshot", "retry", "accept"})
+				if r.refs > 0 && r.rng.Intn(2) == 0 && cur.N > 0 {
+					r.refs--
+					rf = []int{r.rng.Intn(cur.N)}
+				}
+				if r.rng.Intn(2) == 0 {
+					rs = []string{pick([]string{"pA", "pB", "pC", c.apply.Sender})}
+				}
+			}
+			snd := c.apply.Sender
+			if snd == "" {
+				snd = "nil"
+			}
+			r.emit("Apply", map[string]interface{}{"i": int(c.apply.Index), "b": c14Str(c.apply.Chunk), "sender": snd,
+				"v": v, "rf": c14Ints(rf), "rs": c14Strs(rs), "s": cur})
+			rep := c14Reply{apply: c14ApplyResults[v], rs: rs}
+			for _, j := range rf {
+				rep.rf = append(rep.rf, uint32(j))
+			}
+			return rep
+		default: // verify
+			in := c14Info{Hash: string(c14TAppHash(uint64(cur.H))), Height: cur.H, Ver: int(c14AppVer(uint64(cur.H)))}
+			if useBad() {
+				in.Hash = cur.Hash
+			}
+			r.emit("Info", map[string]interface{}{"ans": in, "s": cur})
+			return c14Reply{info: abci.ResponseInfo{LastBlockAppHash: []byte(in.Hash), LastBlockHeight: int64(in.Height), AppVersion: uint64(in.Ver)}}
+		}
+	}
+	gate := &c14Gate{auto: auto}
+	fetchers := int32(1 + rng.Intn(4))
+	retry := time.Duration(15+rng.Intn(40)) * time.Millisecond
+	r.sy = newSyncer(c14Cfg(fetchers, retry), &c14Logger{r}, &c14App{gate}, &c14App{gate}, &c14SP{gate}, tmp)
+
+	// peers: honest | silent | dup | wrong | late
+	kinds := map[string]string{"pA": "honest", "pB": pick([]string{"honest", "silent", "dup", "late"}),
+		"pC": pick([]string{"honest", "wrong", "late", "silent"})}
+	peers := map[string]*c14Peer{}
+	for name := range kinds {
+		name := name
+		peers[name] = &c14Peer{id: p2p.ID(name), onSend: func(p *c14Peer, e p2p.Envelope) {
+			m, ok := e.Message.(*ssproto.ChunkRequest)
+			if !ok || e.ChannelID != ChunkChannel {
+				return
+			}
+			r.mtx.Lock()
+			r.emit("Request", map[string]interface{}{"g": r.gname(), "p": name, "i": int(m.Index), "h": int(m.Height), "f": int(m.Format)})
+			kind := kinds[name]
+			delay := time.Duration(r.rng.Intn(3000)) * time.Microsecond
+			idx := int(m.Index)
+			switch kind {
+			case "silent":
+				r.mtx.Unlock()
+				return
+			case "late":
+				delay += time.Duration(20+r.rng.Intn(80)) * time.Millisecond
+			case "wrong":
+				if r.rng.Intn(2) == 0 {
+					idx = r.rng.Intn(idx + 2)
+				}
+			}
+			n := 1
+			if kind == "dup" {
+				n = 2
+			}
+			r.mtx.Unlock()
+			for k := 0; k < n; k++ {
+				r.wg.Add(1)
+				go func() {
+					defer r.wg.Done()
+					time.Sleep(delay)
+					r.deliver(name, int(m.Height), int(m.Format), idx)
+				}()
+			}
+		}}
+	}
+	names := []string{"pA", "pB", "pC"}
+	snaps := []c14Snap{
+		{H: 3, F: 1, N: 1 + rng.Intn(4), Hash: "P:hashA", Meta: "P:metaA"},
+		{H: 2 + rng.Intn(2), F: 1 + rng.Intn(2), N: 1 + rng.Intn(3), Hash: "P:hashB", Meta: "P:metaB"},
+		{H: 1, F: 1, N: 2, Hash: "P:hashC", Meta: "P:metaC"},
+	}
+	drng := rand.New(rand.NewSource(rng.Int63())) // the driver's own source (r.rng is shared under r.mtx)
+	advert := func() {
+		p := names[drng.Intn(len(names))]
+		s := snaps[drng.Intn(len(snaps))]
+		if drng.Intn(3) == 0 {
+			p = "pA"
+		}
+		added, _ := r.sy.AddSnapshot(peers[p], s.real())
+		r.mtx.Lock()
+		r.emit("AddSnapshot", map[string]interface{}{"p": p, "s": s, "added": added})
+		r.mtx.Unlock()
+	}
+	for k := 0; k < 2+drng.Intn(5); k++ {
+		advert()
+	}
+	endc := make(chan c14End, 1)
+	go func() {
+		s, c, err := r.sy.SyncAny(0, func() {})
+		endc <- c14End{s, c, err}
+	}()
+	deadline := time.After(7 * time.Second)
+	tick := time.NewTicker(3 * time.Millisecond)
+	defer tick.Stop()
+	var end c14End
+	nadv := 0
+loop:
+	for {
+		select {
+		case end = <-endc:
+			break loop
+		case <-deadline:
+			// rescue: make every further app / provider call end the sync, and feed whatever
+			// the applier is waiting for
+			r.mtx.Lock()
+			r.abort = true
+			r.mtx.Unlock()
+			deadline = time.After(time.Hour)
+		case <-tick.C:
+			r.mtx.Lock()
+			ab := r.abort
+			r.mtx.Unlock()
+			if ab {
+				if cur := r.curSnap(); cur.N > 0 {
+					for i := 0; i < cur.N; i++ {
+						r.deliver("pZ", cur.H, cur.F, i)
+					}
+				}
+			} else if nadv < 6 && drng.Intn(40) == 0 {
+				nadv++
+				advert()
+			}
+		}
+	}
+	r.wg.Wait()
+	time.Sleep(time.Duration(2*retry) + 5*time.Millisecond) // let cancelled fetchers log their last steps
+	kind := "fatal"
+	switch {
+	case end.err == nil:
+		kind = "done"
+	case errors.Is(end.err, errNoSnapshots):
+		kind = "nosnapshots"
+	case errors.Is(end.err, errAbort):
+		kind = "abort"
+	}
+	r.mtx.Lock()
+	// the End line is ordered after the applier's last call; late fetcher lines may follow it
+	r.emit("End", map[string]interface{}{"kind": kind, "st": c14AbsState(end.state), "cm": c14AbsCommit(end.commit)})
+	rows := r.rows
+	r.mtx.Unlock()
+	w.flush(rows)
+}
